@@ -48,10 +48,10 @@ def stream_of(fn) -> list:
 
 
 def blocks_of(scfg) -> list:
-    begin = {name: b.begin for name, b in scfg.graph.items()}
+    begin = {name: getattr(b, "begin", -9) for name, b in scfg.graph.items()}
     out = []
     for name, b in scfg.graph.items():
-        out.append({"b": b.begin, "e": b.end, "tg": [begin.get(t, -7) for t in b._jump_targets], "name": name})
+        out.append({"b": getattr(b, "begin", -9), "e": getattr(b, "end", -9), "tg": [begin.get(t, -7) for t in b._jump_targets], "name": name})
     out.sort(key=lambda r: r["b"])
     return out
 
@@ -77,7 +77,18 @@ def record_function(ident: str, fn) -> dict:
         rec["blocks"] = blocks_of(flow.scfg)
     except Exception as e:
         rec["exc"] = exc_sig(e)
-    return rec
+        return [rec]
+    # the graph is a function of the bytecode alone: use the first graph (restructure it in place), then build again
+    rec2 = {"id": ident + "#rebuilt-after-restructure", "stream": rec["stream"], "blocks": [], "exc": ""}
+    try:
+        flow.scfg.restructure()
+    except Exception:
+        pass
+    try:
+        rec2["blocks"] = blocks_of(ByteFlow.from_bytecode(fn).scfg)
+    except Exception as e:
+        rec2["exc"] = exc_sig(e)
+    return [rec, rec2]
 
 
 def record_synth(case: dict) -> dict:
@@ -121,7 +132,7 @@ def main() -> None:
         out = sys.argv[2]
         stride = int(sys.argv[3]) if len(sys.argv) > 3 else 1
         offset = int(sys.argv[4]) if len(sys.argv) > 4 else 0
-        recs = [record_function(i, f) for i, f in corpus.corpus(stride=stride, offset=offset)]
+        recs = [r for i, f in corpus.corpus(stride=stride, offset=offset) for r in record_function(i, f)]
         with open(out, "w") as f:
             json.dump(recs, f, separators=(",", ":"))
     elif mode == "synth":
